@@ -4,11 +4,15 @@
    bytes (a Vec<(Vec<u8>, Vec<u8>)>, resp. a Vec<Vec<u8>> whose i-th value is keyed by the compact
    encoding of i), TrieLayout.Root: Put every entry in order into an empty trie, Hash.
    Result None = the null pointer (failure), Some r = the 32 bytes written to guest memory.
-   The decoder is the SCALE specification decoder of Scale.Compact (canonical compact lengths,
-   no truncation, trailing bytes ignored); pkg/scale's own deviations are the subject of C12. *)
+   Two decoders: dec_entries / dec_values are the SCALE specification decoder (canonical compact
+   lengths, exact lengths, trailing bytes ignored) used by the specification; dec_entries_go /
+   dec_values_go mirror pkg/scale as the host functions use it: decodeBytes allocates the declared
+   length and accepts a short read (bytes.Buffer returns what is left without an error), so a
+   truncated final byte vector with at least one byte present is zero-filled and accepted
+   (known finding bytes-overrun, shared with C12). *)
 From Common Require Import Bytes.
 From Trie Require Import Nibbles Node Encode Model Spec.
-From Scale Require Import Compact.
+From C10 Require Import ScaleCompact.
 Local Open Scope N_scope.
 
 Definition parse_version (v : N) : option version :=
@@ -63,6 +67,73 @@ Fixpoint index_entries (i : N) (vs : list value) : list (list byte * value) :=
   | v :: r => (compact_encode i, v) :: index_entries (i + 1) r
   end.
 
+(* ---- pkg/scale as used here: decodeBytes = length, make([]byte, length), one Read ---- *)
+(* result: the bytes read, the number of zero bytes the short read leaves behind them, the rest.
+   The zero filling is only materialised (pad_zero) once the whole input has been accepted: after a
+   short read the buffer is empty, so any further element fails with io.EOF whatever was filled in. *)
+Definition dec_bytes_go (d : list byte) : option (list byte * N * list byte) :=
+  match compact_decode d with
+  | Some (n, r) =>
+    if n =? 0 then Some ([], 0, r)
+    else match r with
+         | [] => None                                       (* Read on an empty buffer: io.EOF *)
+         | _ => if N.of_nat (length r) <? n
+                then Some (r, n - N.of_nat (length r), [])  (* short read, zero-filled *)
+                else match take (N.to_nat n) r with
+                     | Some (x, r') => Some (x, 0, r')
+                     | None => None
+                     end
+         end
+  | None => None
+  end.
+Definition pad_zero (b : list byte) (z : N) : list byte := b ++ repeat (n2b 0) (N.to_nat z).
+
+Fixpoint dec_pairs_go (n : nat) (d : list byte) : option (list (list byte * value)) :=
+  match n with
+  | O => Some []
+  | S n' =>
+    match dec_bytes_go d with
+    | Some (k, zk, r) =>
+      match dec_bytes_go r with
+      | Some (v, zv, r') =>
+        match dec_pairs_go n' r' with
+        | Some l => Some ((pad_zero k zk, pad_zero v zv) :: l)
+        | None => None
+        end
+      | None => None
+      end
+    | None => None
+    end
+  end.
+(* every element consumes at least two bytes, so a count above the input length fails; the bound keeps
+   the model from unfolding an absurd declared count *)
+Definition dec_entries_go (d : list byte) : option (list (list byte * value)) :=
+  match compact_decode d with
+  | Some (n, r) => if N.of_nat (length r) <? 2 * n then None else dec_pairs_go (N.to_nat n) r
+  | None => None
+  end.
+
+Fixpoint dec_vals_go (n : nat) (d : list byte) : option (list value) :=
+  match n with
+  | O => Some []
+  | S n' =>
+    match dec_bytes_go d with
+    | Some (v, zv, r) => match dec_vals_go n' r with Some l => Some (pad_zero v zv :: l) | None => None end
+    | None => None
+    end
+  end.
+Definition dec_values_go (d : list byte) : option (list value) :=
+  match compact_decode d with
+  | Some (n, r) => if N.of_nat (length r) <? n then None else dec_vals_go (N.to_nat n) r
+  | None => None
+  end.
+
+(* known finding bytes-overrun: exactly the inputs on which the two decoders differ *)
+Definition guard_entries_overrun (d : list byte) : bool :=
+  match dec_entries d, dec_entries_go d with None, Some _ => true | _, _ => false end.
+Definition guard_values_overrun (d : list byte) : bool :=
+  match dec_values d, dec_values_go d with None, Some _ => true | _, _ => false end.
+
 (* TrieLayout.Root(NewEmptyTrie(), entries) *)
 Definition layout_root (H : list byte -> list byte) (ver : version) (es : list (list byte * value)) : list byte :=
   trie_root H ver (fold_left (fun t e => trie_put t (fst e) (snd e)) es None).
@@ -70,7 +141,7 @@ Definition layout_root (H : list byte -> list byte) (ver : version) (es : list (
 Definition host_root (H : list byte -> list byte) (version : N) (data : list byte) : option (list byte) :=
   match parse_version version with
   | None => None
-  | Some ver => match dec_entries data with
+  | Some ver => match dec_entries_go data with
                 | None => None
                 | Some es => Some (layout_root H ver es)
                 end
@@ -79,7 +150,7 @@ Definition host_root (H : list byte -> list byte) (version : N) (data : list byt
 Definition host_ordered_root (H : list byte -> list byte) (version : N) (data : list byte) : option (list byte) :=
   match parse_version version with
   | None => None
-  | Some ver => match dec_values data with
+  | Some ver => match dec_values_go data with
                 | None => None
                 | Some vs => Some (layout_root H ver (index_entries 0 vs))
                 end
